@@ -228,7 +228,7 @@ DriftClauses(r, cx, t) ==
                                                           /\ cx.sy[t] /\ o.cs[i][4] # e.cs[i].cap}}
     \cup (IF t > 1 /\ r.steps[t].c > 0 /\ r.steps[t].c <= NSlots(r) /\ Op(r, t) \in InPlaceOps
           THEN LET c == r.steps[t].c  p == O(r, t - 1) IN
-               IF p.cs[c][1] # "-" /\ o.cs[c][1] = p.cs[c][1] /\ CapGe(p.cs[c][4], o.cs[c][3]) /\ Op(r, t) \notin {"reserve", "reserve_exact"}
+               IF p.cs[c][1] # "-" /\ o.cs[c][1] = p.cs[c][1] /\ CapGe(p.cs[c][4], o.cs[c][3]) /\ Op(r, t) \notin {"reserve", "reserve_exact", "extend", "splice"}
                   /\ o.out = "ok" /\ e.out = "ok"
                   /\ o.cs[c][5] # p.cs[c][5]
                THEN {<<t, "moved-although-old-capacity-sufficed", c>>} ELSE {}
